@@ -24,8 +24,10 @@ type guardSpec struct {
 	orders  [][2]string
 	musts   []mustRule
 	noev    []string
+	protos  [][2]string // substring, reference
 	refs    map[string]string
 	open    bool // open world: extra guards in the function are not reported
+	modeSet bool
 	avoidOK map[string]bool
 	line    int
 }
@@ -64,6 +66,7 @@ func parseGuardsFile(path string) ([]*guardSpec, error) {
 						return nil, fmt.Errorf("%s:%d: bad reject mode", path, i+1)
 					}
 					cur.mode = m
+					cur.modeSet = true
 				case strings.HasPrefix(f, "params="):
 					if f[7:] != "" {
 						cur.params = strings.Split(f[7:], ",")
@@ -104,6 +107,8 @@ func parseGuardsFile(path string) ([]*guardSpec, error) {
 			}
 			m.sel = strings.TrimSpace(rest)
 			cur.musts = append(cur.musts, m)
+		case strings.HasPrefix(t, "proto "):
+			cur.protos = append(cur.protos, [2]string{strings.TrimSpace(t[6:]), ref})
 		case strings.HasPrefix(t, "noevent "):
 			cur.noev = append(cur.noev, strings.TrimSpace(t[8:]))
 		case strings.HasPrefix(t, "avoid-ok "):
@@ -153,6 +158,9 @@ func checkGuardsFile(p *Program, r *Report, file string) {
 		}
 		r.Analysed["functions"]++
 		pp := p.progFor(fn.Pkg.Pkg.Path())
+		if !sp.modeSet {
+			sp.mode = defaultRejectMode(fn)
+		}
 		f := pp.facts(fn, sp.mode)
 		cur := strings.Split(paramList(fn), ",")
 		if paramList(fn) == "" {
@@ -410,6 +418,42 @@ func checkEffects(p *Program, r *Report, f *FuncFacts, sp *guardSpec, sfn string
 			r.fail("mustpass", cons, p.pos(evs[0].Pos), why)
 		} else {
 			r.pass("mustpass", cons, p.pos(evs[0].Pos), fmt.Sprintf("%d site(s); every non-failing return passes one", len(evs)))
+		}
+	}
+	if len(sp.protos) > 0 {
+		var keys []string
+		for _, g := range f.Guards() {
+			keys = append(keys, "guard "+renameParams(g.Key(), cur, sp.params))
+		}
+		for _, a := range f.Accepts() {
+			keys = append(keys, "exit "+renameParams(a.Key(), cur, sp.params))
+		}
+		for _, e := range f.Events() {
+			keys = append(keys, "effect "+renameParams(effectKey(f, e), cur, sp.params))
+		}
+		for _, pr := range sp.protos {
+			// all " ;; "-separated fragments must occur in one key
+			frags := strings.Split(pr[0], " ;; ")
+			found := ""
+			for _, k := range keys {
+				ok := true
+				for _, fr := range frags {
+					if !strings.Contains(k, strings.TrimSpace(fr)) {
+						ok = false
+						break
+					}
+				}
+				if ok {
+					found = k
+					break
+				}
+			}
+			cons := sfn + " :: " + pr[0]
+			if found == "" {
+				r.fail("proto", cons, fpos, "protocol row has no matching guard/exit/effect in the function"+refStr(pr[1]))
+			} else {
+				r.pass("proto", cons, fpos, pr[1])
+			}
 		}
 	}
 	for _, n := range sp.noev {
